@@ -29,8 +29,8 @@ func init() {
 }
 
 type fedLayout struct {
-	nn                   int
-	sub, pub, chA, chB   []int // client indices per node
+	nn                 int
+	sub, pub, chA, chB []int // client indices per node
 }
 
 func fedClients(p *sim.Plan, nn int, rng *rand.Rand) fedLayout {
